@@ -85,12 +85,12 @@ Source(s, c) ==
    funcs |-> IF WithFn THEN <<[label |-> "f", rets |-> <<[name |-> "r", node |-> N + 2]>>]>>
              ELSE <<>>,
    parts |-> IF TwoParts
-             THEN <<[label |-> "P1", trivial |-> FALSE, outs |-> <<"o">>, recvs |-> <<>>,
+             THEN <<[label |-> "P1", trivial |-> FALSE, outs |-> <<"o">>, user |-> <<"x">>, recvs |-> <<>>,
                      sends |-> <<>>],
-                    [label |-> "P2", trivial |-> FALSE, outs |-> <<"out">>, recvs |-> <<>>,
+                    [label |-> "P2", trivial |-> FALSE, outs |-> <<"out">>, user |-> <<"x">>, recvs |-> <<>>,
                      sends |-> <<>>]>>
              ELSE <<[label |-> "None", trivial |-> TRUE, outs |-> <<"out", "o">>,
-                     recvs |-> <<>>, sends |-> <<>>]>>,
+                     user |-> <<"x">>, recvs |-> <<>>, sends |-> <<>>]>>,
    outputs |-> <<[name |-> "out", node |-> N], [name |-> "o", node |-> c]>>,
    overall |-> IF TwoParts THEN <<"out">> ELSE <<"out", "o">>]
 
@@ -323,6 +323,19 @@ AtEnd ==
           IN /\ Named("RefFaithful", Bug # "none" \/ fc)
              /\ Named("Agree", fc <=> FaithfulExplicit(P, R))
              /\ Named("ClauseExact", (ClauseForP(P, R) = "ok") <=> fc)
+(***************************************************************************)
+(* Generator (use G): every source of the space, one line each; the        *)
+(* harness realises the main graph with real pytato nodes (one template    *)
+(* per edge kind) and renders it with the real code.                       *)
+(***************************************************************************)
+JsonX == INSTANCE Json
+Stutter == UNCHANGED vars
+EmitShape ==
+  PrintT(<<"SHAPE", JsonX!ToJson([ch |-> [i \in 1..N |-> [q \in DOMAIN src.nodes[i].kids |->
+                                                            src.nodes[i].kids[q].to]],
+                                  leaf |-> [i \in 1..N |-> src.nodes[i].kind = "ph"],
+                                  o |-> OutNode(src, "o")])>>)
+
 \* the walk always comes to its end (no stuck state short of done)
 Progress == ~done => ENABLED (StartOut \/ Follow \/ Complete \/ Finish)
 =============================================================================
